@@ -741,6 +741,122 @@ pub struct Property {
     pub prelude: Option<Box<dyn Fn(&Ctx, &Recorder) -> Result<Vec<Violation>, String> + Sync>>,
     /// Optional step run after the families (e.g. to record measured extremes).
     pub epilogue: Option<Box<dyn Fn(&Ctx, &Recorder) + Sync>>,
+    /// Coverage-guided second engine (thorough tier only).
+    pub fuzz: Option<FuzzSpec>,
+}
+
+/// A cargo-fuzz (libFuzzer) campaign with the property's oracle inside the target.
+pub struct FuzzSpec {
+    pub target: &'static str,
+    /// -runs per process (8 processes with different seeds share one corpus)
+    pub runs: u64,
+    pub max_len: u32,
+    /// the same decode + oracle the target runs, for classifying / replaying an artifact
+    pub verdict: fn(&[u8]) -> Verdict,
+}
+
+pub const FUZZ_PROCS: u64 = 8;
+
+/// Runs the campaign; returns violations (one per distinct artifact key).
+pub fn run_fuzz(ctx: &Ctx, prop: &Property, spec: &FuzzSpec, rec: &Recorder) -> Result<Vec<Violation>, String> {
+    let harness = ctx.verif_dir.join("harness");
+    let work = ctx.out_dir().join("fuzz").join(spec.target);
+    let _ = std::fs::remove_dir_all(&work);
+    let corpus = work.join("corpus");
+    let artifacts = work.join("artifacts");
+    std::fs::create_dir_all(&artifacts).map_err(|e| e.to_string())?;
+    let seeds = crate::fuzz::emit_corpus(spec.target, &corpus).map_err(|e| e.to_string())?;
+    let t0 = Instant::now();
+    let build = std::process::Command::new("cargo")
+        .args(["+nightly", "fuzz", "build", spec.target])
+        .current_dir(&harness)
+        .env("CARGO_NET_OFFLINE", "true")
+        .env("RUST_BACKTRACE", "0")
+        .output()
+        .map_err(|e| format!("cargo fuzz build: {}", e))?;
+    if !build.status.success() {
+        return Err(format!("cargo +nightly fuzz build {} failed: {}", spec.target, String::from_utf8_lossy(&build.stderr).lines().rev().take(15).collect::<Vec<_>>().join(" | ")));
+    }
+    let bin = harness.join("fuzz/target/x86_64-unknown-linux-gnu/release").join(spec.target);
+    let dict = ctx.verif_dir.join("corpus/fuzz.dict");
+    let mut children = vec![];
+    for k in 0..FUZZ_PROCS {
+        let child = std::process::Command::new(&bin)
+            .arg(&corpus)
+            .arg(format!("-runs={}", ((spec.runs as f64) * ctx.scale) as u64))
+            .arg(format!("-seed={}", 1 + (splitmix(ctx.seed ^ k.wrapping_mul(0x9E37)) % 4_000_000_000)))
+            .arg(format!("-dict={}", dict.display()))
+            .arg("-len_control=0")
+            .arg(format!("-max_len={}", spec.max_len))
+            .arg(format!("-artifact_prefix={}/p{}-", artifacts.display(), k))
+            .arg("-print_final_stats=1")
+            .arg("-timeout=60")
+            .arg("-rss_limit_mb=4096")
+            .env("RUST_BACKTRACE", "0")
+            .stdout(std::process::Stdio::null())
+            .stderr(std::process::Stdio::piped())
+            .spawn()
+            .map_err(|e| format!("spawn {}: {}", bin.display(), e))?;
+        children.push(child);
+    }
+    let mut total_runs = 0u64;
+    let mut crashed = false;
+    for c in children {
+        let out = c.wait_with_output().map_err(|e| e.to_string())?;
+        let err = String::from_utf8_lossy(&out.stderr);
+        for l in err.lines() {
+            if let Some(n) = l.strip_prefix("stat::number_of_executed_units:") {
+                total_runs += n.trim().parse::<u64>().unwrap_or(0);
+            }
+        }
+        if !out.status.success() {
+            crashed = true;
+        }
+    }
+    rec.evaluations.fetch_add(total_runs, Ordering::Relaxed);
+    *rec.per_family.lock().unwrap().entry(format!("libfuzzer:{}", spec.target)).or_insert(0) += total_runs;
+    rec.set_extra(
+        "libfuzzer",
+        json!({"target": spec.target, "processes": FUZZ_PROCS, "executed_units": total_runs, "seed_corpus_files": seeds,
+               "final_corpus_files": std::fs::read_dir(&corpus).map(|d| d.count()).unwrap_or(0), "wall_s": t0.elapsed().as_secs_f64(),
+               "note": "libFuzzer -seed pins a campaign only approximately; a saved artifact is the reproducible unit"}),
+    );
+    let mut out = vec![];
+    let mut seen = HashSet::new();
+    if let Ok(rd) = std::fs::read_dir(&artifacts) {
+        let mut files: Vec<PathBuf> = rd.filter_map(|e| e.ok()).map(|e| e.path()).collect();
+        files.sort();
+        for f in files {
+            let Ok(bytes) = std::fs::read(&f) else { continue };
+            let name = f.file_name().and_then(|n| n.to_str()).unwrap_or("");
+            let v = match catch(|| (spec.verdict)(&bytes)) {
+                Ok(v) => v,
+                Err(p) => Verdict::fail("panic", p),
+            };
+            match v {
+                Verdict::Fail { key, detail } => {
+                    if ctx.is_known(&key).is_some() {
+                        *rec.known_hits.lock().unwrap().entry(key).or_insert(0) += 1;
+                    } else if seen.insert(key.clone()) {
+                        out.push(Violation { key, detail, replay: f.clone() });
+                    }
+                }
+                Verdict::Pass => {
+                    // timeouts / out-of-memory / slow units are not verdicts
+                    if name.contains("crash") {
+                        out.push(Violation { key: "fuzz-crash-not-reproduced-in-process".into(), detail: format!("artifact {} aborted the fuzz target but passes the in-process oracle", name), replay: f.clone() });
+                    } else {
+                        rec.note(format!("libFuzzer artifact {} (timeout/oom/slow unit) is inconclusive", name));
+                    }
+                }
+            }
+        }
+    }
+    if crashed && out.is_empty() && rec.known_hits.lock().unwrap().is_empty() {
+        rec.note("a fuzz process exited non-zero without leaving a classifiable artifact (inconclusive)");
+    }
+    let _ = prop;
+    Ok(out)
 }
 
 pub fn write_evidence(ctx: &Ctx, prop: &Property, rec: &Recorder, violations: usize) {
@@ -851,8 +967,18 @@ fn run_replays(ctx: &Ctx, prop: &Property, rec: &Recorder) -> Vec<Violation> {
 }
 
 pub fn replay_file(_ctx: &Ctx, prop: &Property, path: &Path) -> Result<Verdict, String> {
-    let text = std::fs::read_to_string(path).map_err(|e| e.to_string())?;
-    let v: Value = serde_json::from_str(&text).map_err(|e| e.to_string())?;
+    let bytes = std::fs::read(path).map_err(|e| e.to_string())?;
+    let parsed = std::str::from_utf8(&bytes).ok().and_then(|t| serde_json::from_str::<Value>(t).ok()).filter(|v| v.get("family").is_some());
+    let Some(v) = parsed else {
+        // not a replay file of ours: a raw libFuzzer artifact
+        let Some(spec) = &prop.fuzz else {
+            return Err("not a replay file and the property has no fuzz target".into());
+        };
+        return Ok(match catch(|| (spec.verdict)(&bytes)) {
+            Ok(v) => v,
+            Err(p) => Verdict::fail("panic", p),
+        });
+    };
     let fam = v["family"].as_str().ok_or("no family")?;
     let family = prop
         .families
@@ -895,6 +1021,18 @@ pub fn run_property(ctx: &Ctx, prop: &Property, only_family: Option<&str>) -> i3
             rec.evaluations.load(Ordering::Relaxed)
         );
         violations.extend(v);
+    }
+    if let (Some(spec), Tier::Thorough, true, None) = (&prop.fuzz, ctx.tier, violations.is_empty(), only_family) {
+        let t0 = Instant::now();
+        match run_fuzz(ctx, prop, spec, &rec) {
+            Ok(v) => violations.extend(v),
+            Err(e) => {
+                write_evidence(ctx, prop, &rec, violations.len());
+                println!("INFRASTRUCTURE property={} {}", prop.id, e);
+                return 3;
+            }
+        }
+        eprintln!("[{}] libFuzzer campaign {} done in {:.1}s", prop.id, spec.target, t0.elapsed().as_secs_f64());
     }
     if let Some(epi) = &prop.epilogue {
         epi(ctx, &rec);
